@@ -1,6 +1,195 @@
-"""Kani engine (DESIGN.md 2.2) -- filled in below."""
+"""Kani engine (DESIGN.md 2.2): harness modules are appended as #[cfg(kani)] child modules to a
+scratch copy of /repo; nothing in /repo is touched.  One `cargo kani` invocation per crate, harnesses in
+parallel.  Harness naming: <what>__complete (full-domain, loop-free or width-bounded: counts as proved) or
+<what>__bounded_<bound> (stand-in, reported separately)."""
+import os
+import re
+import sys
+import json
 import time
+import shutil
+import subprocess
+import threading
+
+VERIF = os.path.dirname(os.path.dirname(os.path.abspath(__file__)))
+REPO = os.environ.get('VERIF_REPO', '/repo')
+SCRATCH = os.path.join(VERIF, 'out', 'kani-scratch')
+_lock = threading.Lock()
+
+LIB_CRATES = ['erltf', 'erltf_serde', 'erltf_serde_derive', 'edp_client', 'edp_node', 'edp_elixir_terms']
 
 
-def run_harnesses(pid, jobs, tier, seed):
-    return {'harnesses': [], 'trusted': [], 'time_s': 0}
+def prepare_scratch(groups):
+    """rsync /repo into the scratch dir, trim the workspace, patch tracing, append harness modules"""
+    os.makedirs(SCRATCH, exist_ok=True)
+    p = subprocess.run(['rsync', '-a', '--delete', '--exclude', 'target', '--exclude', '.git', REPO + '/', SCRATCH + '/'],
+                       capture_output=True, text=True)
+    if p.returncode != 0:
+        raise RuntimeError('rsync failed: ' + p.stderr[-500:])
+    ct = open(os.path.join(SCRATCH, 'Cargo.toml')).read()
+    ct = re.sub(r'members\s*=\s*\[[^\]]*\]', 'members = [%s]' % ', '.join('"crates/%s"' % c for c in LIB_CRATES), ct)
+    ct += '\n[patch.crates-io]\ntracing = { path = "%s" }\n' % os.path.join(VERIF, 'kx', 'stubs', 'tracing')
+    open(os.path.join(SCRATCH, 'Cargo.toml'), 'w').write(ct)
+    for c in LIB_CRATES:
+        mp = os.path.join(SCRATCH, 'crates', c, 'Cargo.toml')
+        m = open(mp).read()
+        m = re.sub(r'(?ms)^\[dev-dependencies\].*?(?=^\[|\Z)', '', m)
+        m = re.sub(r'(?ms)^\[\[bench\]\].*?(?=^\[|\Z)', '', m)
+        m = re.sub(r'(?ms)^\[\[example\]\].*?(?=^\[|\Z)', '', m)
+        if '[lints' not in m:
+            m += '\n[lints.rust]\nunexpected_cfgs = { level = "allow", check-cfg = ["cfg(kani)"] }\n'
+        open(mp, 'w').write(m)
+    os.makedirs(os.path.join(SCRATCH, '.cargo'), exist_ok=True)
+    open(os.path.join(SCRATCH, '.cargo', 'config.toml'), 'w').write('[net]\noffline = true\n')
+    done = set()
+    for g in groups:
+        key = (g['inject'], g['file'])
+        if key in done:
+            continue
+        done.add(key)
+        tgt = os.path.join(SCRATCH, g['inject'])
+        if not os.path.exists(tgt):
+            raise FileNotFoundError('inject target missing: ' + g['inject'])
+        modname = 'verif_kani_' + re.sub(r'\W', '_', os.path.basename(g['file']).rsplit('.', 1)[0])
+        with open(tgt, 'a') as f:
+            f.write('\n#[cfg(kani)]\n#[path = "%s"]\nmod %s;\n' % (os.path.join(VERIF, g['file']), modname))
+        # crate-level feature gates some harness files need
+        if g.get('crate_attrs'):
+            lib = os.path.join(SCRATCH, 'crates', g['crate'], 'src', 'lib.rs')
+            s = open(lib).read()
+            open(lib, 'w').write(g['crate_attrs'] + '\n' + s)
+
+
+def parse_output(out, names):
+    """per-harness status from cargo kani output"""
+    res = {}
+    # sections start with "Checking harness <path>..."
+    parts = re.split(r'(?m)^(?:Thread \d+: )?Checking harness ([\w:]+)\.\.\.', out)
+    # parts = [pre, name1, body1, name2, body2...]
+    for i in range(1, len(parts), 2):
+        full = parts[i]
+        body = parts[i + 1]
+        short = full.split('::')[-1]
+        st = None
+        if 'VERIFICATION:- SUCCESSFUL' in body:
+            st = 'ok'
+        elif 'VERIFICATION:- FAILED' in body:
+            st = 'fail'
+        cov = re.search(r'\*\* (\d+) of (\d+) cover properties satisfied', body)
+        fails = re.findall(r'Failed Checks: (.*)', body)
+        res[short] = {'status': st, 'cover': (int(cov.group(1)), int(cov.group(2))) if cov else None, 'failed_checks': fails[:6], 'body': body[-3000:],
+                      'stubs': re.findall(r'- Stub: (.*)', body)}
+        cv = re.search(r'let concrete_vals: Vec<Vec<u8>> = vec!\[(.*?)\n\s*\];', body, re.S)
+        if cv:
+            vals = []
+            for m in re.finditer(r'vec!\[([^\]]*)\]', cv.group(1)):
+                vals.append([int(x) for x in m.group(1).split(',') if x.strip()])
+            res[short]['concrete_vals'] = vals
+    return res
+
+
+def decode_witness(h, vals):
+    """map concrete playback byte vectors (little endian, in kani::any() call order) to the replay scenario input"""
+    w = h.get('witness')
+    if not w or not vals:
+        return None
+    inp = {}
+    for (name, ty), v in zip(w['fields'], vals):
+        n = int.from_bytes(bytes(v), 'little', signed=False)
+        if ty.startswith('i'):
+            bits = int(ty[1:])
+            if n >= 1 << (bits - 1):
+                n -= 1 << bits
+        if ty == 'bool':
+            inp[name] = bool(n)
+        elif ty == 'bytes':
+            inp[name] = v
+        else:
+            inp[name] = str(n) if abs(n) > 2 ** 53 else n
+    inp.update(w.get('const', {}))
+    return {'scenario': w['scenario'], 'input': inp}
+
+
+def run_harnesses(pid, groups, tier, seed):
+    t0 = time.time()
+    info = {'harnesses': [], 'trusted': [], 'time_s': 0}
+    with _lock:
+        try:
+            prepare_scratch(groups)
+        except Exception as e:
+            for g in groups:
+                for h in g['harnesses']:
+                    info['harnesses'].append({'name': h['name'], 'status': 'undecided', 'reason': 'scratch: %s' % e})
+            return info
+        by_crate = {}
+        for g in groups:
+            by_crate.setdefault(g['crate'], []).append(g)
+        for crate, gs in by_crate.items():
+            hs = []
+            for g in gs:
+                for h in g['harnesses']:
+                    if h.get('thorough_only') and tier != 'thorough':
+                        continue
+                    hs.append((g, h))
+            if not hs:
+                continue
+            cmd = ['cargo', 'kani', '-p', crate, '-Z', 'function-contracts', '-Z', 'stubbing',
+                   '-j', str(min(12, len(hs))), '--output-format', 'terse']
+            for g in gs:
+                for f in g.get('features', []):
+                    if '--features' not in cmd:
+                        cmd += ['--features', f]
+            for g, h in hs:
+                cmd += ['--harness', h['name']]
+            env = dict(os.environ, VERIF_DIR=VERIF, CARGO_NET_OFFLINE='true', CARGO_TARGET_DIR=os.path.join(VERIF, 'out', 'kani-target'))
+            tmo = max(h.get('timeout', 600) for g, h in hs) + 300
+            try:
+                p = subprocess.run(cmd, cwd=SCRATCH, capture_output=True, text=True, env=env, timeout=tmo)
+                out = p.stdout + '\n' + p.stderr
+            except subprocess.TimeoutExpired as e:
+                out = (e.stdout or b'').decode('utf8', 'replace') if isinstance(e.stdout, bytes) else (e.stdout or '')
+                out += '\nTIMEOUT'
+            os.makedirs(os.path.join(VERIF, 'out', 'kani-logs'), exist_ok=True)
+            open(os.path.join(VERIF, 'out', 'kani-logs', '%s-%s.log' % (pid, crate)), 'w').write(out)
+            parsed = parse_output(out, [h['name'] for g, h in hs])
+            for g, h in hs:
+                r = parsed.get(h['name'])
+                ent = {'name': h['name'], 'src': g['inject'], 'bounded': h.get('bounded'), 'time_s': None}
+                if r is None or r['status'] is None:
+                    ent.update(status='undecided', reason='no verdict from kani (compile error, crash or time-out): ' + out[-1500:])
+                else:
+                    ent['status'] = r['status']
+                    ent['tail'] = r['body']
+                    if r['cover'] and r['cover'][0] < r['cover'][1] and r['status'] == 'ok':
+                        ent.update(status='undecided', reason='vacuity: cover property unsatisfied (%d of %d)' % r['cover'])
+                    for s in h.get('require_stubs', []):
+                        pass
+                    if r['status'] == 'fail':
+                        ent['failed_checks'] = r['failed_checks']
+                        if h.get('witness'):
+                            # second run of just this harness with concrete playback (incompatible with -j)
+                            cmd2 = ['cargo', 'kani', '-p', crate, '-Z', 'function-contracts', '-Z', 'stubbing', '-Z', 'concrete-playback',
+                                    '--concrete-playback=print', '--output-format', 'terse', '--harness', h['name']]
+                            try:
+                                p2 = subprocess.run(cmd2, cwd=SCRATCH, capture_output=True, text=True, env=env, timeout=h.get('timeout', 600) + 300)
+                                r2 = parse_output(p2.stdout + p2.stderr, [h['name']]).get(h['name'], {})
+                                ent['witness'] = decode_witness(h, r2.get('concrete_vals'))
+                            except subprocess.TimeoutExpired:
+                                pass
+                info['harnesses'].append(ent)
+    info['trusted'] = ['kani-compiler 0.68 / CBMC 6.11 (bit-precise; atomics sequential; no threads)',
+                       '`tracing` replaced by a no-op stub crate in the scratch build (logging does not influence results)']
+    info['time_s'] = time.time() - t0
+    return info
+
+
+if __name__ == '__main__':
+    props = json.load(open(os.path.join(VERIF, 'props.json')))
+    r = run_harnesses(sys.argv[1], props[sys.argv[1]]['kani'], sys.argv[2] if len(sys.argv) > 2 else 'quick', 0)
+    for h in r['harnesses']:
+        h2 = dict(h)
+        t = h2.pop('tail', '')
+        print(json.dumps(h2)[:1500])
+        if h['status'] != 'ok':
+            print(t[-1500:])
+    print('time', r['time_s'])
